@@ -139,11 +139,11 @@ fn big_len(kind_overhead: u32) -> impl Strategy<Value = u32> {
 }
 
 pub fn chain_scenario() -> impl Strategy<Value = Scenario> {
-	(0u8..4, 0u8..3, prop_oneof![Just(None), Just(Some(0u32)), Just(Some(u32::MAX))]).prop_flat_map(|(kind, compression, threshold)| {
+	(0u8..4, 0u8..3, prop_oneof![Just(None), Just(Some(0u32)), Just(Some(u32::MAX))], 0u8..4).prop_flat_map(|(kind, compression, threshold, bits)| {
 		let mut col = col_of(kind, compression);
 		col.threshold = threshold;
 		let rc = col.rc;
-		let cfg = DbCfg::new(vec![col]);
+		let cfg = DbCfg::new(vec![col]).flags(bits);
 		let ov = overhead(kind);
 		let change = if rc {
 			rc_change(10).boxed()
